@@ -301,7 +301,7 @@ class Ctx:
     # ---- CBMC
     def cbmc(self, cfile, entry, unwind, stubs=('cxxrt.c', 'vp_cbmc.c'), unwindset=None, timeout=600, extra=(),
              memlimit_gb=24, backend=None, trace=True, object_bits=None, harness_unwind=None,
-             harness_loop_rx=r'^_ZL|__bodyv|__run|S_map|U_src|P_sym|reslog|^c\d\d_', cdefs=()):
+             harness_loop_rx=r'^_ZL|__bodyv|__run|S_map|S_pad|U_src|P_sym|reslog|^c\d\d_', cdefs=()):
         cmd = ['cbmc', cfile] + [os.path.join(STUBS, s) for s in stubs] + ['-I', ENGINE] + ['-D' + x for x in cdefs] + ['--function', entry,
                '--unwind', str(unwind), '--unwinding-assertions', '--no-malloc-may-fail',
                '--no-signed-overflow-check', '--no-undefined-shift-check', '--no-div-by-zero-check',
